@@ -20,6 +20,7 @@ OPTS = {"loop_bound": 3}
 ASSUMES = ["C15 well-formed pre-state", "C17 prefix algebra (relation oracle)", "pt/models.py std model",
            "retain: sub-trees of at most 2 levels below the start node, no value-less leaves below it"]
 LEVEL_TEXT = __doc__
+DEEPER = False     # thorough tier: more configurations and the mutant corpus, same unrolling (path count grows too fast)
 
 CHILDREN = {
     "PrefixMap::children": "Iter{{table: Some(&*{T}), nodes: [{k}]}}",
